@@ -53,24 +53,26 @@ type ScriptConn struct {
 	WScript       map[int]WStep // by write index (0-based)
 	DeadlineErr   map[int]error // by index over all Set*Deadline calls (0-based)
 	CloseErr      error
+	CloseDelay    time.Duration // every Close call takes this long
 	OnWrite       func([]byte)  // called (outside the lock) with every accepted chunk
 	MaxBlock      time.Duration // watchdog for a block with no deadline (default 20s); then EOF + HungNoDeadline
 	OnRemoteAddr  func()        // called (outside the lock) whenever RemoteAddr is asked for: a rendezvous point for drivers
 
-	mu        sync.Mutex
-	cond      *sync.Cond
-	segs      []Seg
-	pos, off  int
-	written   bytes.Buffer
-	nWrites   int
-	nDL       int
-	ops       []Op
-	closed    bool
-	nClose    int
-	rdl, wdl  time.Time
-	released  bool
-	timer     *time.Timer
-	readBytes int
+	mu         sync.Mutex
+	cond       *sync.Cond
+	segs       []Seg
+	pos, off   int
+	written    bytes.Buffer
+	nWrites    int
+	nDL        int
+	ops        []Op
+	closed     bool
+	nClose     int
+	nCloseDone int
+	rdl, wdl   time.Time
+	released   bool
+	timer      *time.Timer
+	readBytes  int
 
 	// monitor-visible flags
 	HungNoDeadline   bool
@@ -321,8 +323,15 @@ func (c *ScriptConn) Write(p []byte) (int, error) {
 // Close implements net.Conn.
 func (c *ScriptConn) Close() error {
 	c.mu.Lock()
-	defer c.mu.Unlock()
 	c.nClose++
+	d := c.CloseDelay
+	c.mu.Unlock()
+	if d > 0 {
+		time.Sleep(d) // a close that takes time (SO_LINGER, a wrapped transport flushing)
+	}
+	c.mu.Lock()
+	defer c.mu.Unlock()
+	defer func() { c.nCloseDone++ }()
 	if c.closed {
 		err := c.closedErr("close")
 		c.rec(Op{Op: "close", Err: errStr(err)})
@@ -393,6 +402,9 @@ func (c *ScriptConn) Ops() []Op {
 	defer c.mu.Unlock()
 	return append([]Op(nil), c.ops...)
 }
+
+// ClosesDone is the number of Close calls that have returned.
+func (c *ScriptConn) ClosesDone() int { c.mu.Lock(); defer c.mu.Unlock(); return c.nCloseDone }
 
 // Closes is the number of Close calls so far.
 func (c *ScriptConn) Closes() int { c.mu.Lock(); defer c.mu.Unlock(); return c.nClose }
